@@ -78,16 +78,16 @@ theorem jaccardBits_symm (a b : List Nat) : jaccardBits a b = jaccardBits b a :=
 theorem index_eq_one_sub (a b : List Nat) :
     jaccardIndexBits a b = F32.sub F32.oneBits (jaccardBits a b) := rfl
 
-/-- A9. `_cast_sigs_array` accepts exactly integer dtypes of 2, 4 or 8 bytes, keeping the width. -/
-theorem castDtype_spec (kind : Char) (size w : Nat) :
-    castDtype kind size = some w ↔
-      (kind = 'u' ∨ kind = 'i') ∧ (size = 2 ∨ size = 4 ∨ size = 8) ∧ w = size := by
+/-- A9. `_cast_sigs_array` accepts exactly the native-byte-order integer dtypes of 2, 4 or 8 bytes, keeping the width. -/
+theorem castDtype_spec (kind : Char) (size w : Nat) (native : Bool) :
+    castDtype kind size native = some w ↔
+      native = true ∧ (kind = 'u' ∨ kind = 'i') ∧ (size = 2 ∨ size = 4 ∨ size = 8) ∧ w = size := by
   unfold castDtype
   split
   · next h => simp only [Option.some.injEq]; constructor
-              · intro e; exact ⟨h.1, h.2, e.symm⟩
-              · intro e; exact e.2.2.symm
-  · next h => simp only [reduceCtorEq, false_iff]; intro e; exact h ⟨e.1, e.2.1⟩
+              · intro e; exact ⟨h.1, h.2.1, h.2.2, e.symm⟩
+              · intro e; exact e.2.2.2.symm
+  · next h => simp only [reduceCtorEq, false_iff]; intro e; exact h ⟨e.1, e.2.1, e.2.2.1⟩
 
 /-! ### Part B: the binary32 layer -/
 
@@ -194,7 +194,7 @@ example : jaccardBits [1, 2, 5] [1, 2, 4] = 0x3F000000 := by decide +kernel
 example : jaccardBits [1, 2] [1, 2, 3] = 0x3EAAAAAB := by decide +kernel
 example : jaccardSpecBits (symmDiff ([1, 2] : List Nat).toFinset [1, 2, 3].toFinset).card
     (([1, 2] : List Nat).toFinset ∪ [1, 2, 3].toFinset).card = 0x3EAAAAAB := by decide +kernel
-example : castDtype 'u' 8 = some 8 ∧ castDtype 'f' 4 = none ∧ castDtype 'i' 1 = none := by decide
+example : castDtype 'u' 8 = some 8 ∧ castDtype 'f' 4 = none ∧ castDtype 'i' 1 = none ∧ castDtype 'i' 4 false = none := by decide
 
 -- the hypotheses of F5 are satisfiable
 example : jaccardBits [1, 2] [1, 2, 3] =
